@@ -14,13 +14,13 @@ import (
 )
 
 type Runner struct {
-	Env     *sopenv.Env
-	Rec     *Recorder
-	MaxTime time.Duration
-	NoReset bool // keep counting backend calls across CommitStart (sweeps count from Begin)
-	OpGate  bool // every API operation is a scheduling point too (concurrent histories)
+	Env      *sopenv.Env
+	Rec      *Recorder
+	MaxTime  time.Duration
+	NoReset  bool // keep counting backend calls across CommitStart (sweeps count from Begin)
+	OpGate   bool // every API operation is a scheduling point too (concurrent histories)
 	Deadline bool // give every transaction a context deadline of MaxTime + 3 s (the caller's deadline of C15)
-	obsN    int
+	obsN     int
 }
 
 func mode(m string) sop.TransactionMode {
